@@ -1061,10 +1061,38 @@ fn gate_clash_case(clash: &[&str], out: &mut Vec<Failure>) -> String {
     text
 }
 
+/// One program with a designator that is not a constant non-negative integer: it must be
+/// diagnosed and no number may be recorded. Returns false if the analysis crashed.
+fn check_bad_designator(name: &str, text: &str, out: &mut Vec<Failure>) -> bool {
+    let Ok(res) = analyze(text) else { return false };
+    let mut errs = vec![];
+    all_semantic_errors(res.semantic_errors(), &mut errs);
+    if errs.is_empty() {
+        let found = res.symbol_table().verif_symbols().iter().rev().find(|s| s.name() == "v").map(|s| format!("{:?}", s.symbol_type()));
+        out.push(Failure::new(format!("C09:invalid-designator-not-diagnosed:{name}"), json!({"input": {"source": text}, "expected": "a semantic diagnostic", "actual": found})));
+    }
+    // if a width was recorded nonetheless, it must not be an invented number
+    if let Some(s) = res.symbol_table().verif_symbols().iter().rev().find(|s| s.name() == "v") {
+        if let Some(w) = s.symbol_type().width() {
+            out.push(Failure::new(format!("C09:invalid-designator-replaced-by-number:{name}"), json!({"input": {"source": text}, "actual": w})));
+        } else if matches!(s.symbol_type(), Type::BitArray(..) | Type::QubitArray(..)) {
+            out.push(Failure::new(format!("C09:invalid-designator-replaced-by-number:{name}"), json!({"input": {"source": text}, "actual": format!("{:?}", s.symbol_type())})));
+        }
+    }
+    true
+}
+
 pub fn replay_c09(v: &serde_json::Value) -> Result<Vec<Failure>, String> {
     let text = v["input"]["source"].as_str().ok_or("no input.source")?;
     let key = v["key"].as_str().unwrap_or("");
     let mut out = vec![];
+    if key.contains(":invalid-designator-") {
+        let name = key.rsplit(':').next().unwrap_or("");
+        if clean_parse(text) {
+            check_bad_designator(name, text, &mut out);
+        }
+        return Ok(out);
+    }
     // re-derive the case from the enumeration (quick and thorough widths)
     for w in WIDTHS {
         for r in 0..5 {
@@ -1175,6 +1203,12 @@ pub fn run_c09(ctx: &RunCtx) {
         ("input-variable", "input int[128] m; int[m] v;".into()),
         ("gate-parameter-as-width", "gate g(n) q { int[n] v; }".into()),
         ("call", "def f() -> int { return 1; } int[f()] v;".into()),
+        ("empty-tuple", "int[()] v;".into()),
+        ("empty-tuple-bit", "bit[()] v;".into()),
+        ("empty-tuple-qubit", "qubit[()] v;".into()),
+        ("empty-tuple-parameter", "def f(uint[()] v) { }".into()),
+        ("empty-tuple-complex", "complex[float[()]] v;".into()),
+        ("nested-empty-tuple", "float[(())] v;".into()),
     ];
     // negative constants of every integer type, in every kind of designator
     let mut bad = bad;
@@ -1192,22 +1226,7 @@ pub fn run_c09(ctx: &RunCtx) {
         for (name, text) in &bad {
             let mut rep = CaseReport::default();
             if clean_parse(text) {
-                if let Ok(res) = analyze(text) {
-                    let mut errs = vec![];
-                    all_semantic_errors(res.semantic_errors(), &mut errs);
-                    if errs.is_empty() {
-                        let found = res.symbol_table().verif_symbols().iter().rev().find(|s| s.name() == "v").map(|s| format!("{:?}", s.symbol_type()));
-                        rep.fail(format!("C09:invalid-designator-not-diagnosed:{name}"), json!({"input": {"source": text}, "expected": "a semantic diagnostic", "actual": found}));
-                    }
-                    // if a width was recorded nonetheless, it must not be an invented number
-                    if let Some(s) = res.symbol_table().verif_symbols().iter().rev().find(|s| s.name() == "v") {
-                        if let Some(w) = s.symbol_type().width() {
-                            rep.fail(format!("C09:invalid-designator-replaced-by-number:{name}"), json!({"input": {"source": text}, "actual": w}));
-                        } else if matches!(s.symbol_type(), Type::BitArray(..) | Type::QubitArray(..)) {
-                            rep.fail(format!("C09:invalid-designator-replaced-by-number:{name}"), json!({"input": {"source": text}, "actual": format!("{:?}", s.symbol_type())}));
-                        }
-                    }
-                } else {
+                if !check_bad_designator(name, text, &mut rep.failures) {
                     rep.discarded = true;
                 }
             } else {
